@@ -27,6 +27,13 @@ pub enum Act {
     /// reach on every side): whatever an earlier call left in the kept premultiplied copy around
     /// the box must not leak
     Interior { pt: PT, geo: usize, alg: Alg },
+    /// equally sized tiles cut out of one image at different origins (crop origin k, fixed crop size):
+    /// anything cached per geometry must not survive a change of the crop origin alone
+    Tile { pt: PT, geo: usize, alg: Alg, k: u8 },
+    /// a larger alpha-aware resize of full-range 16-bit content (thousands of pixels): the portable and
+    /// the SIMD alpha division legitimately differ by one unit on rare (colour, alpha) pairs, so a
+    /// Resizer whose alpha kernels run on another back-end than the selected one shows up here
+    BigAlpha { pt: PT },
     /// invalid crop box
     BadCrop { pt: PT },
     /// source and destination of different pixel types
@@ -147,6 +154,21 @@ pub fn alphabet(tier: Tier, sub: bool) -> Vec<Act> {
             v.push(Act::Interior { pt, geo: 1 + pi % 3, alg: Alg::Conv(F::Lanczos3) });
         }
     }
+    // tiles: the same crop size at three origins, for the algorithms that build per-geometry tables
+    for (pt, geo) in [(PT::U8x3, 1usize), (PT::U16x2, 3)] {
+        if sub && pt == PT::U16x2 {
+            continue;
+        }
+        for alg in [Alg::Nearest, Alg::SS(F::Box, 2), Alg::Conv(F::Bilinear)] {
+            for k in 0..3u8 {
+                v.push(Act::Tile { pt, geo, alg, k });
+            }
+        }
+    }
+    v.push(Act::BigAlpha { pt: PT::U16x2 });
+    if !sub {
+        v.push(Act::BigAlpha { pt: PT::U16x4 });
+    }
     v.push(Act::BadCrop { pt: PT::U8x4 });
     v.push(Act::BadCrop { pt: PT::F32 });
     v.push(Act::Mismatch);
@@ -206,6 +228,31 @@ fn exec(rz: &mut Resizer, act: Act, key: u64) -> (String, Vec<u8>) {
             o.alpha = true;
             o.cx = Some(Crop1 { start: (sw / 3) as f64, len: ((sw + 2) / 3) as f64 });
             o.cy = Some(Crop1 { start: (sh / 3) as f64, len: ((sh + 2) / 3) as f64 });
+            let mut dst = Raw::filled(pt, dw, dh, 0x5A);
+            let r = resize_into(rz, &src, &mut dst, &o);
+            (format!("{:?}", r), dst.bytes().to_vec())
+        }
+        Act::Tile { pt, geo, alg, k } => {
+            let ((sw, sh), (dw, dh)) = GEOS[geo];
+            let src = source(pt, sw, sh, key);
+            let mut o = Opts::new(alg);
+            o.alpha = pt.has_alpha();
+            o.cx = Some(Crop1 { start: k as f64, len: sw as f64 - 2.0 });
+            o.cy = Some(Crop1 { start: (k % 2) as f64, len: sh as f64 - 1.0 });
+            let mut dst = Raw::filled(pt, dw, dh, 0x5A);
+            let r = resize_into(rz, &src, &mut dst, &o);
+            (format!("{:?}", r), dst.bytes().to_vec())
+        }
+        Act::BigAlpha { pt } => {
+            let (sw, sh, dw, dh) = (64u32, 48u32, 48u32, 40u32);
+            let mut l = Lcg::new(key ^ 0xA1FA);
+            let nc = pt.ncomp();
+            let src = Raw::from_fn(pt, sw, sh, |_, _, c| {
+                let v = l.next() % 65536;
+                if c == nc - 1 { v.max(1) as f64 } else { v as f64 }
+            });
+            let mut o = Opts::new(Alg::Conv(F::Bilinear));
+            o.alpha = true;
             let mut dst = Raw::filled(pt, dw, dh, 0x5A);
             let r = resize_into(rz, &src, &mut dst, &o);
             (format!("{:?}", r), dst.bytes().to_vec())
@@ -356,6 +403,8 @@ fn act_class(a: Act) -> String {
         Act::Resize { pt, alg, alpha, .. } => format!("resize {:?} {} alpha={}", pt, crate::props::c01::alg_class(alg), alpha),
         Act::Sprite { pt, alg, .. } => format!("resize sprite {:?} {} alpha=true", pt, crate::props::c01::alg_class(alg)),
         Act::Interior { pt, alg, .. } => format!("resize interior crop {:?} {} alpha=true", pt, crate::props::c01::alg_class(alg)),
+        Act::Tile { pt, alg, .. } => format!("resize tile {:?} {}", pt, crate::props::c01::alg_class(alg)),
+        Act::BigAlpha { pt } => format!("resize 64x48 full-range alpha {:?}", pt),
         o => format!("{:?}", o),
     }
 }
@@ -505,7 +554,7 @@ pub fn prop(tier: Tier, _seed: u64) -> Prop {
         }
         out
     }));
-    p.rule = format!("explicit-state search over Resizer histories: full alphabet of {} actions (8 pixel types with pixel sizes 1,2,3,6,8,4,12,16 x 4 geometries incl. larger-then-smaller x {{Nearest, Convolution(Lanczos3), Interpolation(Bilinear), SuperSampling(Box,2)}}, alpha on, fractional crops, sprites with long zero runs and alpha-aware up-scales of an interior crop box (middle third, Lanczos3/CatmullRom) for all six alpha types, size ladders of the three scratch buffers, two erroring calls, reset_internal_buffers, clone, set_cpu_extensions) to depth {}, and a {}-action sub-alphabet to depth {}; every transition executes the real operation on the reused Resizer and on Resizer::new() with the same back-end and compares result value and destination bytes; states are deduplicated on the Debug rendering of the Resizer (back-end + full contents of the three scratch buffers) and the depth", full.len(), d_full, sub.len(), d_sub);
+    p.rule = format!("explicit-state search over Resizer histories: full alphabet of {} actions (8 pixel types with pixel sizes 1,2,3,6,8,4,12,16 x 4 geometries incl. larger-then-smaller x {{Nearest, Convolution(Lanczos3), Interpolation(Bilinear), SuperSampling(Box,2)}}, alpha on, fractional crops, sprites with long zero runs and alpha-aware up-scales of an interior crop box (middle third, Lanczos3/CatmullRom) for all six alpha types, size ladders of the three scratch buffers, equally sized tiles at three crop origins (Nearest / SuperSampling / Convolution), a 64x48 full-range 16-bit alpha resize, two erroring calls, reset_internal_buffers, clone, set_cpu_extensions) to depth {}, and a {}-action sub-alphabet to depth {}; every transition executes the real operation on the reused Resizer and on Resizer::new() with the same back-end and compares result value and destination bytes; states are deduplicated on the Debug rendering of the Resizer (back-end + full contents of the three scratch buffers) and the depth", full.len(), d_full, sub.len(), d_sub);
     p.bounds = json!({"actions_full": full.len(), "depth_full": d_full, "actions_sub": sub.len(), "depth_sub": d_sub});
     p.assumptions = vec!["the Debug rendering of Resizer shows every field that can influence later calls (cpu extensions, MulDiv, the three Vec<u8> buffers); capacity is added through size_of_internal_buffers()".into(), "allocator alignment of the scratch buffers is whatever the system allocator returns here; deliberately misaligned allocations are exercised in C03".into()];
     p
